@@ -249,7 +249,10 @@ fn handle_delete<W: Write>(
         };
         match cas_decide(current, expected) {
             Cas::Commit => {
-                let _ = std::fs::remove_file(&dst);
+                // Never acknowledge a delete that did not happen.
+                if current.is_some() && std::fs::remove_file(&dst).is_err() {
+                    return Response::Error("cannot delete at this path".into());
+                }
                 Response::DeleteResult {
                     deleted: true,
                     current: None,
